@@ -158,6 +158,7 @@ func (d *Driver) Run() int {
 		fmt.Fprintln(os.Stderr, "known findings:", err)
 		return 2
 	}
+	repoRoot = d.Repo
 	loader := NewLoader()
 	var jobs []*job
 	for _, tg := range strings.Split(d.Targets, ",") {
@@ -271,7 +272,7 @@ func contractMentions(fc *FuncContract, p string) bool {
 		}
 		return false
 	}
-	if check(fc.MustCalls) {
+	if check(fc.MustCalls) || check(fc.AllCalls) {
 		return true
 	}
 	for _, ca := range fc.StmtAsserts {
@@ -300,8 +301,25 @@ func (d *Driver) rtJobs(loader *Loader) ([]*job, error) {
 	// the harness links the REAL builder package of /repo's working tree: rebuild it on every run
 	env := append(os.Environ(), "GOFLAGS=-mod=mod", "GOPROXY=off", "GOSUMDB=off", "GOTOOLCHAIN=local", "CGO_ENABLED=0")
 	instBin := filepath.Join(d.Work, "inst")
+	// the harness module is copied into the scratch directory with its replace directive pointing at
+	// the repository being checked (normally /repo; a scratch copy in the self-test)
+	instSrc := filepath.Join(d.Work, "instsrc")
+	os.MkdirAll(instSrc, 0o755)
+	for _, f := range []string{"main.go", "go.mod"} {
+		b, err := os.ReadFile(filepath.Join(d.Verif, "inst", f))
+		if err != nil {
+			return nil, err
+		}
+		if f == "go.mod" {
+			b = []byte(strings.Replace(string(b), "=> /repo", "=> "+d.Repo, 1))
+		}
+		os.WriteFile(filepath.Join(instSrc, f), b, 0o644)
+	}
+	if b, err := os.ReadFile(filepath.Join(d.Repo, "go.sum")); err == nil {
+		os.WriteFile(filepath.Join(instSrc, "go.sum"), b, 0o644)
+	}
 	bc := exec.Command("go1.26", "build", "-o", instBin, ".")
-	bc.Dir = filepath.Join(d.Verif, "inst")
+	bc.Dir = instSrc
 	bc.Env = env
 	if b, err := bc.CombinedOutput(); err != nil {
 		return nil, fmt.Errorf("building the instantiation harness against /repo failed (does /repo compile?): %v\n%s", err, b)
